@@ -9,6 +9,7 @@ Transcription of
 * `lena/context/include_exclude_tree.py`: `_split_key`, `_group_by_starting_prefixes`,
   `_make_include_exclude_tree`, `make_include_exclude_tree`, `IncludeExcludeTree.get`,
   `IncludeExcludeTree._get_from_subtree` (as repaired by commit 0d389ed);
+  (`contains` as of commit e5c725f, `SelectContext` as of 6df7ab0 and 0b5fd4d);
 * `lena/flow/group_by.py`: `GroupBy.__init__`, `fill`, `compute`, `reset`.
 
 A dictionary is a slot vector over the key alphabet `names` of the case (DESIGN.md section 2):
@@ -99,8 +100,10 @@ def containsGo : Val → List String → Bool
     | some w => containsGo w rest
   | .leaf _, _ :: _ :: _ => false                               -- `not isinstance(subdict, dict)`
 
-/-- `contains(d, s)`; `len(levels) < 2` gives `s in d`, which is the same test -/
-def contains (d : Slots) (s : String) : Bool := containsGo names (.dict d) (splitDots s)
+/-- `contains(d, s)`: the empty string names the context itself (`if s == "": return True`, commit
+e5c725f); `len(levels) < 2` gives `s in d`, which is the same test as the general one -/
+def contains (d : Slots) (s : String) : Bool :=
+  if s = "" then true else containsGo names (.dict d) (splitDots s)
 
 /-! ## `lena.context.get_recursively` without default (functions.py:239-332) -/
 
